@@ -6,6 +6,10 @@ open Driver
 
 def handle (line : String) : String :=
   let toks := (line.trimAscii.toString.splitOn " ").filter (· ≠ "")
+  -- "@mode:max:seed" configures the OpenMP stand-in of the implementation side (C12); the model has no threads
+  let toks := match toks with
+    | t :: rest => if t.startsWith "@" then rest else toks
+    | [] => toks
   match toks with
   | [] => "err empty"
   | fn0 :: rest =>
